@@ -86,6 +86,9 @@ def body(c):
         jpath = os.path.join(c.work, "jets.ndjson")
         # the limb arithmetic of Secp.tla against arithmetic facts (inverses, roots, beta^3 = lambda^3 = 1, wrap-around)
         c.tlc_design("MC_Secp", "MC_Secp.cfg", workers=1, heap="2g", timeout=900)
+        if not q:
+            # the bit-string arithmetic of JetLib.tla against TLC's integers: all 65 536 pairs of 8-bit operands
+            c.tlc_design("MC_JetLib", "MC_JetLib.cfg", workers=16, heap="8g", timeout=5000)
         parts = []
         for sub, n in (("jets", [12 if q else 300]), ("hashjets", [3 if q else 40]), ("ecjets", [3 if q else 24]), ("sigjets", [0 if q else 6]),
                        ("eljets", [3 if q else 30, 0 if q else 4])):
